@@ -536,6 +536,19 @@ func (rpi RetentionPolicyInfo) Clone() *RetentionPolicyInfo {
 			other.MstVersions[k] = *mstv.clone()
 		}
 	}
+	if rpi.Subscriptions != nil {
+		other.Subscriptions = make([]SubscriptionInfo, len(rpi.Subscriptions))
+		for i := range rpi.Subscriptions {
+			other.Subscriptions[i] = rpi.Subscriptions[i]
+			other.Subscriptions[i].Destinations = append([]string(nil), rpi.Subscriptions[i].Destinations...)
+		}
+	}
+	if rpi.DownSamplePolicyInfo != nil {
+		// the slices are replaced, never edited in place; a shallow copy keeps later
+		// changes of the live policy out of the clone
+		info := *rpi.DownSamplePolicyInfo
+		other.DownSamplePolicyInfo = &info
+	}
 	return &other
 }
 
